@@ -5,6 +5,7 @@ import (
 	"fmt"
 	"io"
 	"log"
+	"os"
 	"strings"
 
 	"verifharness/hxlib"
@@ -13,8 +14,9 @@ import (
 )
 
 type pair struct {
-	S int `json:"service"`
-	I int `json:"instance"`
+	S   int  `json:"service"`
+	I   int  `json:"instance"`
+	Pre *pre `json:"pre,omitempty"` // search legs: calls made in this process before the pair is judged (search.go)
 }
 
 func isLowerHex(s string) bool {
@@ -42,6 +44,9 @@ func observe(s, i int) (line string, id uint32, str string, parsed int64) {
 	return line, uint32(n), str, parsed
 }
 
+// history: what the search legs did in this process before the pair being judged (nil in the tiers).
+var history *pre
+
 // oracle: the property, evaluated directly on the real code.
 func oracle(r *hxlib.Run, s, i int) {
 	n := fatchoy.MakeNodeID(uint8(s), uint16(i))
@@ -49,7 +54,7 @@ func oracle(r *hxlib.Run, s, i int) {
 	if s >= 128 {
 		cls = "service>=128"
 	}
-	c := pair{s, i}
+	c := pair{S: s, I: i, Pre: history}
 	if int(n.Service()) != s || int(n.Instance()) != i {
 		r.Fail("unpack:"+cls, fmt.Sprintf("MakeNodeID(%d,%d) unpacks to (%d,%d)", s, i, n.Service(), n.Instance()), c)
 	}
@@ -111,8 +116,17 @@ func main() {
 	if r.Replay != "" {
 		var c pair
 		r.LoadReplay(&c)
+		if c.Pre != nil {
+			c.Pre.run(c.Pre.N)
+		}
 		one(r, c.S, c.I, true)
 		r.Sample(c)
+		return
+	}
+	// search.go: cheap legs in every tier, the full passes from thorough on, the longest windows with -search only.
+	// They run first: what they look for depends on the calls made before in this process, and a replay starts from none.
+	legs(r)
+	if os.Getenv("HX_LEGS_ONLY") != "" { // development: the legs alone
 		return
 	}
 	bs := []int{0, 1, 2, 9, 10, 15, 16, 17, 127, 128, 129, 200, 254, 255}
@@ -126,7 +140,7 @@ func main() {
 	for k := 0; k < n; k++ {
 		s, i := r.R.Intn(256), r.R.Intn(65536)
 		if k < 5 {
-			r.Sample(pair{s, i})
+			r.Sample(pair{S: s, I: i})
 		}
 		one(r, s, i, true)
 	}
@@ -157,7 +171,7 @@ func main() {
 				id := uint32(fatchoy.MakeNodeID(uint8(s), uint16(i)))
 				if id < 1<<24 {
 					if seen[id/64]&(1<<(id%64)) != 0 {
-						r.Fail("distinct:collision", fmt.Sprintf("id %d produced twice", id), pair{s, i})
+						r.Fail("distinct:collision", fmt.Sprintf("id %d produced twice", id), pair{S: s, I: i})
 					}
 					seen[id/64] |= 1 << (id % 64)
 				}
